@@ -75,7 +75,6 @@ JudgeCallbacks(r) ==
         fired == [i \in 1..Len(r.fired) |-> <<r.fired[i].kind, r.fired[i].site>>]
         sites == Sites(cs)
         kinds == CbKinds(cs.pl)
-        want == EmittedName(cs)
     IN IF r.exc # "" THEN Verdict(r.id, "REJECT", "Raised", TRUE, r.exc)
        ELSE IF \E i \in 1..Len(fired) : fired[i] \notin planned THEN
             Verdict(r.id, "REJECT", "FiredForAbsentSite", TRUE, "")
@@ -90,7 +89,7 @@ JudgeCallbacks(r) ==
             Verdict(r.id, "REJECT", "MetaDataNotUpstream", TRUE, "")
        ELSE IF \E i \in 1..Len(sites) :
                   \/ r.calls[i].k # "call"
-                  \/ ~(IsMethOf(r.calls[i], want) \/ IsCallOf(r.calls[i], want))
+                  \/ ~(IsMethOf(r.calls[i], EmittedNameAt(cs, i)) \/ IsCallOf(r.calls[i], EmittedNameAt(cs, i)))
                   \/ r.calls[i].n < 1 \/ r.calls[i].a[2] # IntC(sites[i]) THEN
             Verdict(r.id, "REJECT", "EmittedCall", TRUE, "")
        ELSE IF cs.pl = "param" /\ r.params # [i \in 1..Len(sites) |-> 7] THEN
